@@ -191,11 +191,12 @@ def capsule_capsule(
     vec1 = cap1_pos + axis1 * x1
     vec2 = cap2_pos + axis2 * x2
 
+    # reported whatever the distance: the callers filter by margin (write_contact, collision_flex), and a
+    # geom-distance sensor needs the distance of a pair that is farther apart than the collision margin
     dist, pos, normal = sphere_sphere(vec1, cap1_radius, vec2, cap2_radius)
-    if dist <= margin:
-      contact_dist[0] = dist
-      contact_pos[0] = pos
-      contact_normal[0] = normal
+    contact_dist[0] = dist
+    contact_pos[0] = pos
+    contact_normal[0] = normal
 
   # parallel axes: test all 4 endpoint pairs, keep first 2 that pass margin check
   else:
